@@ -9,6 +9,7 @@ CONSTANTS
   AllowCorrupt = FALSE
   AllowRuns = FALSE
   Sim = FALSE
+  DynOnly = FALSE
   DynOpts <- FewDynOpts
   LitPalette <- WideLit
   DistPalette <- WideDistPlus
